@@ -20,6 +20,8 @@ Items == <<
 Fill(n) == [j \in 1..n |-> 97 + (j % 23)]
 SLit == <<34>> \o Fill(a) \o Items[it] \o Fill(b) \o <<34>>
 KA == <<34,116,34>>   \* "t"
+NumLit == <<49>> \o [j \in 1..a |-> 48 + (j % 10)]
+Blanks == [j \in 1..b |-> IF j % 5 = 0 THEN 10 ELSE 32]
 
 Text ==
   CASE kind = "inarr"   -> <<91,91>> \o SLit \o <<44,49,93,44,55,93>>                       \* [[LIT,1],7]
@@ -28,6 +30,9 @@ Text ==
     [] kind = "skipkey" -> <<123>> \o SLit \o <<58,49,44>> \o KA \o <<58,50,125>>             \* {LIT:1,"t":2}
     [] kind = "getkey"  -> <<123,34,117,34,58,48,44>> \o SLit \o <<58,123,34,120,34,58,51,125,125>>  \* {"u":0,LIT:{"x":3}}
     [] kind = "elem"    -> <<91,48,44>> \o SLit \o <<44,91,52,93,93>>                         \* [0,LIT,[4]]
+    \* a skipped number of a+1 digits followed by b blanks before the separator (the token search runs over them)
+    [] kind = "numarr"  -> <<91>> \o NumLit \o Blanks \o <<44,55,44,91,56,93,93>>              \* [NUM   ,7,[8]]
+    [] kind = "numobj"  -> <<123,34,115,34,58>> \o NumLit \o Blanks \o <<44>> \o KA \o <<58,91,57,93,125>>   \* {"s":NUM   ,"t":[9]}
 
 Dec == DecodeString(SLit).b
 PathOf ==
@@ -37,6 +42,8 @@ PathOf ==
     [] kind = "skipkey" -> <<KeyStep(<<116>>)>>
     [] kind = "getkey"  -> <<KeyStep(Dec), KeyStep(<<120>>)>>
     [] kind = "elem"    -> <<IdxStep(2), IdxStep(0)>>
+    [] kind = "numarr"  -> <<IdxStep(2), IdxStep(0)>>
+    [] kind = "numobj"  -> <<KeyStep(<<116>>), IdxStep(0)>>
 \* a second path per case: one step further / the literal itself
 Path2 ==
   CASE kind = "inarr"   -> <<IdxStep(0), IdxStep(0)>>
@@ -45,9 +52,13 @@ Path2 ==
     [] kind = "skipkey" -> <<KeyStep(Dec)>>
     [] kind = "getkey"  -> <<KeyStep(SubSeq(SLit, 2, Len(SLit) - 1))>>     \* the raw spelling as a key
     [] kind = "elem"    -> <<IdxStep(1)>>
+    [] kind = "numarr"  -> <<IdxStep(1)>>
+    [] kind = "numobj"  -> <<KeyStep(<<115>>)>>
 
-InitOD == /\ it \in DOMAIN Items /\ a \in AS /\ b \in BS
-          /\ kind \in {"inarr", "inobj", "skipval", "skipkey", "getkey", "elem"}
+InitOD == \/ /\ it \in DOMAIN Items /\ a \in AS /\ b \in BS
+             /\ kind \in {"inarr", "inobj", "skipval", "skipkey", "getkey", "elem"}
+          \/ /\ it = 1 /\ a \in AS /\ b \in BS \cup {2, 15, 16, 17, 47, 48}
+             /\ kind \in {"numarr", "numobj"}
 NextOD == UNCHANGED <<it, a, b, kind>>
 
 One(p) == LET x == Text r == ParseText(x) lk == Lookup(r.v, p) IN
